@@ -4,6 +4,7 @@ use vstd::std_specs::iter::IteratorSpec;
 verus! {
 //@include spec/prelude.rs
 broadcast use {axiom_string_ext, axiom_str_ext, axiom_str_of, axiom_vec_ext, axiom_vec_of, axiom_display_string, axiom_display_str, axiom_display_usize, axiom_display_u128, axiom_display_asp_variable};
+//@include spec/sortspec.rs
 //@include spec/indexset.rs
 //@include units/fol_types.inc
 //@include spec/sem.rs
